@@ -14,11 +14,15 @@
   names; and after collection a zone holds a stream exactly once if it lies on the path from the
   root to that leaf and not at all otherwise — so nothing is dropped, duplicated, or shared
   between zones that are not ancestors of one another.
+  With a user tree (`rewriteAll`, the model of `_rewrite_stream_zones_from_tree` after fix 3f9e38c,
+  tied to the code on 200+ tree cases per run): rewriting is total, every stream whose label names a
+  node ends in a zone without sub-zones (its own node, or a zone generated for it when the node is
+  the root or has sub-zones), and conservation holds for it exactly as above.
   Not modelled: splitting and stripping the label text, the `(zone, name)` sort (done by the harness
-  with the same key), the user-tree path (`_rewrite_stream_zones_from_tree`), utility copies —
-  these are decided by the oracle on the implementation.
+  with the same key), utility copies — decided by the oracle on the implementation.
 -/
 import OPModel.Proofs.ZoneLemmas
+import OPModel.Proofs.ZoneTreeLemmas
 import OPModel.Drive.C10
 
 namespace OP.C10
@@ -55,13 +59,12 @@ theorem conservation (labels : List ZPath) (st : ZBuild) (h : buildZones labels 
     rw [h] at e; cases e; rfl
   subst this
   have hL := prefClosed_prePass labels
-  have hmem : ∀ i (hi : i < st'.zones.length), st'.zones[i] ∈ st'.paths := by
-    intro i hi
+  have hmem : st'.zones[i] ∈ st'.paths := by
     rw [hinv.paths_eq]
     exact List.mem_append_right _ (List.getElem_mem hi)
   exact content_count st'.paths st'.zones (binv_paths_nodup _ _ (nodup_prePass labels) hinv)
-    (binv_closed _ _ hL hinv) hmem
-    (fun i hi q hq hp => binv_leaf _ _ hL hinv _ (List.getElem_mem hi) q hq hp) i hi fuel z hfuel
+    (binv_closed _ _ hL hinv) i hi hmem
+    (fun q hq hp => binv_leaf _ _ hL hinv _ (List.getElem_mem hi) q hq hp) fuel z hfuel
 
 /-- The root holds every stream exactly once. -/
 theorem root_holds_all_once (labels : List ZPath) (st : ZBuild) (h : buildZones labels = .ok st)
@@ -85,6 +88,59 @@ theorem shared_only_along_a_path (labels : List ZPath) (st : ZBuild) (h : buildZ
   rcases Nat.le_total z1.length z2.length with hl | hl
   · exact Or.inl (List.prefix_of_prefix_length_le p1 p2 hl)
   · exact Or.inr (List.prefix_of_prefix_length_le p2 p1 hl)
+
+/-! ### with a user zone tree -/
+
+/-- a well-formed input tree: distinct node paths, closed under non-empty prefixes, none empty -/
+def TreeOK (paths : List ZPath) : Prop := paths.Nodup ∧ PrefClosed paths ∧ ∀ p ∈ paths, p ≠ []
+
+theorem treeOK_inv (paths : List ZPath) (h : TreeOK paths) : TInv { paths := paths } :=
+  ⟨h.1, h.2.1, h.2.2, by intro z hz; simp at hz⟩
+
+/-- **Rewriting the labels against a user tree is total**: the child-naming loop always finds a free
+    name (labels that name no node are left alone — they are not an error of this step). -/
+theorem tree_rewrite_total (root : String) (paths : List ZPath) (h : TreeOK paths) (ss : List (ZPath × String)) :
+    ∃ st, rewriteAll root ss { paths := paths } = .ok st ∧ st.zones.length = ss.length := by
+  obtain ⟨st, h1, _, h3⟩ := rewriteAll_spec root ss _ (treeOK_inv paths h)
+  exact ⟨st, h1, by simpa using h3⟩
+
+/-- **Every stream whose label names a node ends up in a zone without sub-zones** — its own node if
+    that is a leaf, otherwise a zone generated for it below the node — so it cannot be lost when
+    zones with sub-zones rebuild their collections. -/
+theorem tree_streams_in_leaves (root : String) (paths : List ZPath) (h : TreeOK paths) (ss : List (ZPath × String))
+    (st : TBuild) (he : rewriteAll root ss { paths := paths } = .ok st) :
+    ∀ z, some z ∈ st.zones → z ∈ st.paths ∧ kidsOf st.paths z = [] ∧ 1 < z.length := by
+  obtain ⟨st', h1, hinv, _⟩ := rewriteAll_spec root ss _ (treeOK_inv paths h)
+  rw [he] at h1; cases h1
+  exact hinv.leaf
+
+/-- **Conservation with a user tree**: after collection, a stream whose label named a node is held
+    exactly once by every zone on the path from the root to its zone and by no other zone. -/
+theorem tree_conservation (root : String) (paths : List ZPath) (h : TreeOK paths) (ss : List (ZPath × String))
+    (st : TBuild) (he : rewriteAll root ss { paths := paths } = .ok st)
+    (i : Nat) (hi : i < st.zones.length) (z : ZPath) (hz : st.zones[i] = some z)
+    (fuel : Nat) (y : ZPath) (hfuel : ∀ q ∈ st.paths, q.length < y.length + fuel) :
+    (content st.paths (st.zones.map fun o => o.getD []) fuel y).count i = if y <+: z then 1 else 0 := by
+  obtain ⟨st', h1, hinv, _⟩ := rewriteAll_spec root ss _ (treeOK_inv paths h)
+  rw [he] at h1; cases h1
+  have hmemz : some z ∈ st.zones := by rw [← hz]; exact List.getElem_mem hi
+  have hi' : i < (st.zones.map fun o => o.getD []).length := by simpa using hi
+  have hget : (st.zones.map fun o => o.getD [])[i] = z := by simp [hz]
+  have := content_count st.paths (st.zones.map fun o => o.getD []) hinv.nodup hinv.closed i hi'
+    (by rw [hget]; exact (hinv.leaf z hmemz).1)
+    (by rw [hget]; exact fun q hq hp => tinv_leaf st hinv z hmemz q hq hp) fuel y hfuel
+  rw [hget] at this
+  exact this
+
+/-- a stream labelled with a zone that has sub-zones gets a zone of its own below it (fix 3f9e38c) -/
+example : (rewriteAll "Site" [(["Site", "A"], "S1"), (["A", "B"], "S2"), (["Site"], "S1")]
+      { paths := [["Site"], ["Site", "A"], ["Site", "A", "B"]] }).toOption.map (·.zones)
+    = some [some ["Site", "A", "S1"], some ["Site", "A", "B"], some ["Site", "S1"]] := by decide +kernel
+
+example : TreeOK [["Site"], ["Site", "A"], ["Site", "A", "B"]] := by
+  refine ⟨by decide, ?_, by decide⟩
+  unfold PrefClosed
+  decide
 
 /-! ### non-vacuity: the shapes that used to break -/
 
